@@ -68,9 +68,11 @@ def strategy(tier):
                                'data': st.just('d'),
                                'send': st.just(False)}),
         st.fixed_dictionaries({'op': st.just('ack'), 'ns': nsi, 'sel': sel,
-                               'j': st.integers(0, 5), 'args': args}),
+                               'j': st.integers(0, 5), 'args': args,
+                               'dup': st.booleans()}),
         st.fixed_dictionaries({'op': st.just('ack'), 'ns': nsi, 'sel': sel,
-                               'j': st.integers(0, 5), 'args': args}),
+                               'j': st.integers(0, 5), 'args': args,
+                               'dup': st.booleans()}),
         st.fixed_dictionaries({'op': st.just('call'), 'ns': nsi,
                                'timeout': st.sampled_from([0.5, 2, 60]),
                                'data': S.payload_st(max_leaves=3),
@@ -172,13 +174,23 @@ def _run(case, h):
     labels = {'aio': aio, 'nontrivial': False}
     dirs = set()
 
+    during_cb = {}
+    gates = {}
+
     def mk_cb(k):
         if aio and case['coro_cb']:
             async def cb(*args):
                 cb_log.append((k, list(args)))
+                if k in during_cb:
+                    fut = h.loop.create_future()
+                    gates.setdefault(k, []).append(fut)
+                    await fut
         else:
             def cb(*args):
                 cb_log.append((k, list(args)))
+                fn = during_cb.pop(k, None)
+                if fn is not None and not aio:
+                    fn()        # re-entrant delivery of a duplicate ACK
         return cb
 
     def check_quiet(step, what):
@@ -285,13 +297,38 @@ def _run(case, h):
             check_quiet(step, 'emit_cb')
         elif k == 'ack':
             pid, kind = pick(ns, op['sel'], op['j'])
+            kk = None
             if kind == 'own':
                 kk = outstanding[ns].pop(pid)
                 used[ns].append(pid)
                 if kk is not None:
                     expect_cb.append((kk, list(op['args'])))
-            for f in wire.frames(wire.ACK, ns, pid, list(op['args'])):
-                h.deliver(f)
+            dup = op.get('dup') and kind == 'own' and kk is not None
+            frs = wire.frames(wire.ACK, ns, pid, list(op['args']))
+            if dup and aio and case['coro_cb']:
+                from engineio import packet as ep
+                during_cb[kk] = True
+                tasks = []
+                for rep in range(2):        # the ACK and its duplicate
+                    for f in frs:
+                        tasks.append(h.loop.spawn(h.eio._receive_packet(
+                            ep.Packet(ep.MESSAGE, f))))
+                        h.loop.run_until_idle()
+                during_cb.pop(kk, None)
+                for fut in gates.pop(kk, []):
+                    fut.set_result(None)
+                h.loop.run_until_idle()
+                labels['dup_ack_during_callback'] = True
+                labels['nontrivial'] = True
+            elif dup and not aio:
+                during_cb[kk] = lambda: [h.deliver(f) for f in frs]
+                for f in frs:
+                    h.deliver(f)
+                labels['dup_ack_during_callback'] = True
+                labels['nontrivial'] = True
+            else:
+                for f in frs:
+                    h.deliver(f)
             labels['ack_' + kind] = True
             if kind == 'used':
                 labels['nontrivial'] = True
